@@ -254,5 +254,303 @@ theorem measGate_lockstep (np n : Nat) (det : Bool) (op : COp) (hk : MeasKind op
              · exact mixGood_of n _ (mapTab_ok n _ (keeps_z n _ hq2) _ hgm.ok)
                  (mapTab_real _ (fun t hr => gate_stabReal t (.Z (qIndex np op.r2 op.t2)) hr) _ (fun x hx => (hgm x hx).2.2)))
 
+/-! ### flags only ever switch on -/
+
+theorem stabGate_flags (np n : Nat) (det : Bool) (op : COp) (s s1 : StabSt) (h : stabGate np n det op s = .ok s1) :
+    (s1.nonUniform = false → s.nonUniform = false) ∧ (s1.lossMeas = false → s.lossMeas = false) := by
+  unfold stabGate at h
+  simp only at h
+  have m1 : ∀ (q : Nat) (f : Tab → Tab), stabMap1 n q f s = .ok s1 →
+      (s1.nonUniform = false → s.nonUniform = false) ∧ (s1.lossMeas = false → s.lossMeas = false) := by
+    intro q f h; unfold stabMap1 at h; split at h
+    · injection h with h; subst h; exact ⟨id, id⟩
+    · cases h
+  have m2 : ∀ (q1 q2 : Nat) (f : Tab → Tab), stabMap2 n q1 q2 f s = .ok s1 →
+      (s1.nonUniform = false → s.nonUniform = false) ∧ (s1.lossMeas = false → s.lossMeas = false) := by
+    intro q1 q2 f h; unfold stabMap2 at h; split at h
+    · injection h with h; subst h; exact ⟨id, id⟩
+    · cases h
+  have m3 : ∀ (q1 q2 c : Nat) (f : Tab → Tab) (r : Bool), stabClassical n q1 q2 c det f r s = .ok s1 →
+      (s1.nonUniform = false → s.nonUniform = false) ∧ (s1.lossMeas = false → s.lossMeas = false) := by
+    intro q1 q2 c f r h; unfold stabClassical at h; split at h
+    · injection h with h; subst h
+      exact ⟨fun h => (Bool.or_eq_false_iff.1 h).1, fun h => (Bool.or_eq_false_iff.1 h).1⟩
+    · cases h
+  have m4 : ∀ (q1 c : Nat), stabMeasZ n q1 c det s = .ok s1 →
+      (s1.nonUniform = false → s.nonUniform = false) ∧ (s1.lossMeas = false → s.lossMeas = false) := by
+    intro q1 c h; unfold stabMeasZ at h; split at h
+    · injection h with h; subst h
+      exact ⟨fun h => (Bool.or_eq_false_iff.1 h).1, fun h => (Bool.or_eq_false_iff.1 h).1⟩
+    · cases h
+  cases hk : op.kind <;> simp only [hk] at h
+  all_goals first
+    | (injection h with h; subst h; exact ⟨id, id⟩)
+    | exact m1 _ _ h
+    | exact m2 _ _ _ h
+    | exact m3 _ _ _ _ _ h
+    | exact m4 _ _ h
+    | cases h
+
+theorem stabAct_flags (np n : Nat) (det : Bool) (arr : Array COp) (s s1 : StabSt) (a : Act)
+    (h : stabAct np n det arr s a = .ok s1) :
+    (s1.nonUniform = false → s.nonUniform = false) ∧ (s1.lossMeas = false → s.lossMeas = false) := by
+  cases a with
+  | gate k => exact stabGate_flags np n det _ s s1 h
+  | noise k side q nm =>
+    simp only [stabAct] at h
+    cases hn : Mix.applyNoise nm q s.mix with
+    | error e => rw [hn] at h; cases h
+    | ok m' => rw [hn] at h; injection h with h; subst h; exact ⟨id, id⟩
+  | replace k => simp [stabAct] at h
+
+theorem runStabActs_flags (np n : Nat) (det : Bool) (arr : Array COp) : ∀ (acts : List Act) (s s' : StabSt),
+    runStabActs np n det arr acts s = .ok s' →
+    (s'.nonUniform = false → s.nonUniform = false) ∧ (s'.lossMeas = false → s.lossMeas = false)
+  | [], s, s', h => by simp [runStabActs] at h; subst h; exact ⟨id, id⟩
+  | a :: as, s, s', h => by
+    simp only [runStabActs] at h
+    cases ha : stabAct np n det arr s a with
+    | error e => rw [ha] at h; cases h
+    | ok s1 =>
+      rw [ha] at h
+      have h1 := stabAct_flags np n det arr s s1 a ha
+      have h2 := runStabActs_flags np n det arr as s1 s' h
+      exact ⟨fun x => h1.1 (h2.1 x), fun x => h1.2 (h2.2 x)⟩
+
+theorem stabGo_flags (ns : Bool) (np n : Nat) (det : Bool) (arr : Array COp) : ∀ (ops : List COp) (k : Nat) (s s' : StabSt),
+    stabGo ns np n det arr ops k s = .ok s' →
+    (s'.nonUniform = false → s.nonUniform = false) ∧ (s'.lossMeas = false → s.lossMeas = false)
+  | [], k, s, s', h => by simp [stabGo] at h; subst h; exact ⟨id, id⟩
+  | op :: rest, k, s, s', h => by
+    simp only [stabGo] at h
+    split at h
+    · cases h
+    · cases hp : placeOp ns .stab np op k with
+      | error e => rw [hp] at h; cases h
+      | ok acts =>
+        rw [hp] at h; simp only at h
+        cases hr : runStabActs np n det arr acts s with
+        | error e => rw [hr] at h; cases h
+        | ok s1 =>
+          rw [hr] at h; simp only at h
+          have h1 := runStabActs_flags np n det arr acts s s1 hr
+          have h2 := stabGo_flags ns np n det arr rest (k + 1) s1 s' h
+          exact ⟨fun x => h1.1 (h2.1 x), fun x => h1.2 (h2.2 x)⟩
+
+/-! ### the two compilers in lockstep -/
+
+theorem stabGate_real (np n : Nat) (det : Bool) (op : COp) (hf : MFree op) (s s1 : StabSt) (hm : MixReal s.mix)
+    (h : stabGate np n det op s = .ok s1) : MixReal s1.mix := by
+  unfold stabGate at h
+  simp only at h
+  have m1 : ∀ (q : Nat) (g : Gate), stabMap1 n q (fun t => t.map g.act) s = .ok s1 → MixReal s1.mix := by
+    intro q g h; unfold stabMap1 at h; split at h
+    · injection h with h; subst h; exact mapTab_real _ (fun t hr => gate_stabReal t g hr) _ hm
+    · cases h
+  have m2 : ∀ (q1 q2 : Nat) (g : Gate), stabMap2 n q1 q2 (fun t => t.map g.act) s = .ok s1 → MixReal s1.mix := by
+    intro q1 q2 g h; unfold stabMap2 at h; split at h
+    · injection h with h; subst h; exact mapTab_real _ (fun t hr => gate_stabReal t g hr) _ hm
+    · cases h
+  cases hk : op.kind <;> simp only [hk] at h
+  case input => injection h with h; subst h; exact hm
+  case output => injection h with h; subst h; exact hm
+  case identity => injection h with h; subst h; exact hm
+  case h => exact m1 _ (.H _) h
+  case s => exact m1 _ (.P _) h
+  case sdg => exact m1 _ (.Pdag _) h
+  case x => exact m1 _ (.X _) h
+  case y => exact m1 _ (.Y _) h
+  case z => exact m1 _ (.Z _) h
+  case cnot => exact m2 _ _ (.CNOT _ _) h
+  case cz => exact m2 _ _ (.CZ _ _) h
+  case ccnot => rcases hf with hf | hf <;> simp [hk, Kind.isOneQubit, Kind.isCtrlPair] at hf
+  case ccz => rcases hf with hf | hf <;> simp [hk, Kind.isOneQubit, Kind.isCtrlPair] at hf
+  case mcr => rcases hf with hf | hf <;> simp [hk, Kind.isOneQubit, Kind.isCtrlPair] at hf
+  case measZ => rcases hf with hf | hf <;> simp [hk, Kind.isOneQubit, Kind.isCtrlPair] at hf
+  case param => cases h
+
+/-- the operations of the extended class: the measurement-free ones of `OpOK`, and `MeasurementZ` / `ClassicalCNOT` /
+    `ClassicalCZ` on existing qubits without noise attached -/
+inductive OpOK2 (n np : Nat) (op : COp) : Prop
+  | unitary (h : OpOK n np op)
+  | meas (hk : MeasKind op.kind) (hw : OpWF n np op) (h0 : op.n0.isNone = true) (h1 : op.n1.isNone = true)
+
+theorem OpOK2.wf {n np : Nat} {op : COp} (h : OpOK2 n np op) : OpWF n np op := by
+  cases h with
+  | unitary h => exact h.wf
+  | meas _ hw _ _ => exact hw
+
+theorem OpOK2.kind {n np : Nat} {op : COp} (h : OpOK2 n np op) : MFree op ∨ MeasKind op.kind := by
+  cases h with
+  | unitary h => exact Or.inl h.mfree
+  | meas hk _ _ _ => exact Or.inr hk
+
+def ActOK2 (n np : Nat) (arr : Array COp) : Act → Prop
+  | .gate k => ∀ op, arr[k]? = some op → OpWF n np op ∧ (MFree op ∨ MeasKind op.kind)
+  | .noise _ _ q nm => q < n ∧ ParamOK nm
+  | .replace _ => True
+
+theorem getD_none (arr : Array COp) (k : Nat) (hk : arr[k]? = none) :
+    arr.getD k { kind := .identity } = { kind := .identity } := by
+  simp [Array.getD, Array.getElem?_eq_none_iff.1 hk |> Nat.not_lt.2]
+
+theorem getD_some (arr : Array COp) (k : Nat) (op : COp) (hk : arr[k]? = some op) :
+    arr.getD k { kind := .identity } = op := by
+  have hlt : k < arr.size := by
+    rcases Nat.lt_or_ge k arr.size with h' | h'
+    · exact h'
+    · rw [Array.getElem?_eq_none_iff.2 h'] at hk; cases hk
+  simp [Array.getD, hlt]
+  have := Array.getElem?_eq_getElem hlt
+  rw [this] at hk; injection hk
+
+/-- one action on both sides -/
+theorem act_lockstep (np n : Nat) (det : Bool) (arr : Array COp) (s s1 : StabSt) (d d1 : DmSt) (a : Act)
+    (ha : ActOK2 n np arr a) (hI : Inv n s d)
+    (hs : stabAct np n det arr s a = .ok s1) (hd : dmAct np n det arr d a = .ok d1)
+    (hu : s1.nonUniform = false) (hl : s1.lossMeas = false) : Inv n s1 d1 := by
+  obtain ⟨⟨ρ, hρs, hρn, hρ⟩, hg⟩ := hI
+  have hh : (toC n ρ)ᴴ = toC n ρ := by rw [hρ]; exact mixRho_herm n _ hg
+  cases a with
+  | gate k =>
+    simp only [stabAct] at hs
+    simp only [dmAct] at hd
+    cases hk : arr[k]? with
+    | none =>
+      rw [getD_none arr k hk] at hs hd
+      simp only [stabGate] at hs
+      simp only [dmGate, hρs] at hd
+      injection hs with hs; subst hs
+      injection hd with hd; subst hd
+      exact ⟨⟨ρ, hρs, hρn, hρ⟩, hg⟩
+    | some op =>
+      rw [getD_some arr k op hk] at hs hd
+      obtain ⟨hw, hkind⟩ := ha op hk
+      rcases hkind with hf | hm
+      · obtain ⟨e1, _⟩ := stabGate_mixRho np n det op hf hw.2.2 s s1 hg.mixN hs
+        obtain ⟨ρ', hρ', e2, n2⟩ := dmGate_toC np n det op hf hw d d1 ρ hρs hρn hh hd
+        exact ⟨⟨ρ', hρ', n2, by rw [e2, hρ, e1]⟩,
+          mixGood_of n _ (stabGate_ok np n det op hw.2.2 s s1 hg.ok hs)
+            (stabGate_real np n det op hf s s1 (fun x hx => (hg x hx).2.2) hs)⟩
+      · exact measGate_lockstep np n det op hm hw s s1 d d1 ⟨⟨ρ, hρs, hρn, hρ⟩, hg⟩ hs hd hu hl
+  | noise k side q nm =>
+    simp only [stabAct] at hs
+    simp only [dmAct, hρs] at hd
+    cases hn : Mix.applyNoise nm q s.mix with
+    | error e => rw [hn] at hs; cases hs
+    | ok m' =>
+      rw [hn] at hs; injection hs with hs; subst hs
+      cases hn2 : DMx.applyNoise n nm q ρ with
+      | error e => rw [hn2] at hd; cases hd
+      | ok r =>
+        rw [hn2] at hd; injection hd with hd; subst hd
+        obtain ⟨e1, _⟩ := applyNoise_mixRho n q ha.1 nm ha.2 s.mix m' hg.mixN hn
+        obtain ⟨e2, n2⟩ := dmNoise_toC n q ha.1 nm ρ r hρn hh hn2
+        exact ⟨⟨r, rfl, n2, by rw [e2, hρ, e1]⟩,
+          mixGood_of n _ (applyNoise_ok n q ha.1 nm s.mix m' hg.ok hn)
+            (applyNoise_real nm q s.mix m' (fun x hx => (hg x hx).2.2) hn)⟩
+  | replace k => simp [stabAct] at hs
+
+theorem run_lockstep (np n : Nat) (det : Bool) (arr : Array COp) :
+    ∀ (acts : List Act) (s s' : StabSt) (d d' : DmSt), (∀ a ∈ acts, ActOK2 n np arr a) → Inv n s d →
+      runStabActs np n det arr acts s = .ok s' → runDmActs np n det arr acts d = .ok d' →
+      s'.nonUniform = false → s'.lossMeas = false → Inv n s' d'
+  | [], s, s', d, d', _, hI, hs, hd, _, _ => by
+    simp [runStabActs] at hs; simp [runDmActs] at hd; subst hs; subst hd; exact hI
+  | a :: as, s, s', d, d', hw, hI, hs, hd, hu, hl => by
+    simp only [runStabActs] at hs
+    simp only [runDmActs] at hd
+    cases ha : stabAct np n det arr s a with
+    | error e => rw [ha] at hs; cases hs
+    | ok s1 =>
+      rw [ha] at hs
+      cases hb : dmAct np n det arr d a with
+      | error e => rw [hb] at hd; cases hd
+      | ok d1 =>
+        rw [hb] at hd
+        have hfl := runStabActs_flags np n det arr as s1 s' hs
+        have hI1 := act_lockstep np n det arr s s1 d d1 a (hw a List.mem_cons_self) hI ha hb (hfl.1 hu) (hfl.2 hl)
+        exact run_lockstep np n det arr as s1 s' d1 d' (fun b hb' => hw b (List.mem_cons_of_mem _ hb')) hI1 hs hd hu hl
+
+theorem measKind_not_mfree (op : COp) (hk : MeasKind op.kind) : op.kind.isCtrlPair = false ∧ op.kind.isOneQubit = false := by
+  rcases hk with h | h | h <;> simp [h, Kind.isCtrlPair, Kind.isOneQubit]
+
+theorem go_lockstep (ns : Bool) (np n : Nat) (det : Bool) (arr : Array COp)
+    (harr : ∀ (j : Nat) (op : COp), arr[j]? = some op → OpOK2 n np op) :
+    ∀ (ops : List COp) (k : Nat) (s s' : StabSt) (d d' : DmSt), (∀ op ∈ ops, OpOK2 n np op) → Inv n s d →
+      stabGo ns np n det arr ops k s = .ok s' → dmGo ns np n det arr ops k d = .ok d' →
+      s'.nonUniform = false → s'.lossMeas = false → Inv n s' d'
+  | [], k, s, s', d, d', _, hI, hs, hd, _, _ => by
+    simp [stabGo] at hs; simp [dmGo] at hd; subst hs; subst hd; exact hI
+  | op :: rest, k, s, s', d, d', hw, hI, hs, hd, hu, hl => by
+    simp only [stabGo] at hs
+    simp only [dmGo] at hd
+    split at hs
+    · cases hs
+    · have ho := hw op List.mem_cons_self
+      have hback : placeOp ns .dm np op k = placeOp ns .stab np op k := by
+        cases ho with
+        | unitary h => exact placeOp_backend ns np op k h.mfree
+        | meas hk hw' h0 h1 => rw [placeOp_none ns .dm np op k h0 h1, placeOp_none ns .stab np op k h0 h1]
+      rw [hback] at hd
+      cases hp : placeOp ns .stab np op k with
+      | error e => rw [hp] at hs; cases hs
+      | ok acts =>
+        rw [hp] at hs hd; simp only at hs hd
+        cases hr : runStabActs np n det arr acts s with
+        | error e => rw [hr] at hs; cases hs
+        | ok s1 =>
+          rw [hr] at hs; simp only at hs
+          cases hr2 : runDmActs np n det arr acts d with
+          | error e => rw [hr2] at hd; cases hd
+          | ok d1 =>
+            rw [hr2] at hd; simp only at hd
+            have hacts : ∀ a ∈ acts, ActOK2 n np arr a := by
+              have gate_ok : ActOK2 n np arr (.gate k) := fun op' hop' => ⟨(harr k op' hop').wf, (harr k op' hop').kind⟩
+              cases ho with
+              | unitary h =>
+                intro a ha
+                rcases placeOp_good' n np ns .stab op k h.wf h.p0 h.p1 acts hp a ha with e | e | ⟨sd, q, nm, e, hq, hP⟩
+                · subst e; exact gate_ok
+                · subst e; trivial
+                · subst e; exact ⟨hq, hP⟩
+              | meas hk hw' h0 h1 =>
+                rw [placeOp_none ns .stab np op k h0 h1] at hp
+                injection hp with hp; subst hp
+                intro a ha
+                simp only [List.mem_singleton] at ha
+                subst ha; exact gate_ok
+            have hfl := stabGo_flags ns np n det arr rest (k + 1) s1 s' hs
+            have hI1 := run_lockstep np n det arr acts s s1 d d1 hacts hI hr hr2 (hfl.1 hu) (hfl.2 hl)
+            exact go_lockstep ns np n det arr harr rest (k + 1) s1 s' d1 d'
+              (fun o ho' => hw o (List.mem_cons_of_mem _ ho')) hI1 hs hd hu hl
+
+/-- **C06 (c) with measurements on which all branches agree**: gates, noise, `MeasurementZ`, `ClassicalCNOT`, `ClassicalCZ`.
+    If the stabilizer compile returns with both analysis flags off — every executed measurement found all branches agreeing on
+    "random?" and on the outcome (`nonUniform = false`) and the total weight 1 (`lossMeas = false`) — and the density-matrix
+    compile returns, then the density matrix equals `Σ_k w_k ρ(T_k)` of the mixture, entry by entry.  Every number of qubits. -/
+theorem dm_equals_mixture_meas (ns : Bool) (ne np nc : Nat) (det : Bool) (ops : List COp)
+    (hw : ∀ op ∈ ops, OpOK2 (ne + np) np op) (s : StabSt) (d : DmSt)
+    (hs : compileStab ns ne np nc det ops = .ok s) (hd : compileDM ns ne np nc det ops = .ok d)
+    (hu : s.nonUniform = false) (hl : s.lossMeas = false) :
+    ∃ ρ, d.ρ = some ρ ∧ Mat.EqOn ρ (mixtureDensity (ne + np) s.mix) := by
+  unfold compileStab at hs
+  unfold compileDM at hd
+  have hI0 : Inv (ne + np) { mix := [(1, (Tab.ket0 (ne + np)).norm)], creg := List.replicate nc 0 }
+      { ρ := some (⟨pow2 (ne + np), fun i j => if i = 0 ∧ j = 0 then 1 else 0⟩ : Mat).norm, creg := List.replicate nc 0 } := by
+    refine ⟨⟨_, rfl, rfl, ?_⟩, ?_⟩
+    · rw [toC_rho0, mixRho_init]
+    · intro x hx
+      simp only [List.mem_singleton] at hx
+      subst hx
+      exact ⟨rfl, Tab.norm_valid _ (Tab.ket0_valid _), norm_stabReal _ (ket0_stabReal _)⟩
+  obtain ⟨⟨ρ, hρ, hn, e⟩, hg⟩ := go_lockstep ns np (ne + np) det ops.toArray (by
+      intro j op hop
+      apply hw
+      have : op ∈ ops.toArray := Array.mem_of_getElem? hop
+      simpa using this) ops 0 _ s _ d hw hI0 hs hd hu hl
+  obtain ⟨e3, n3⟩ := toC_mixtureDensity (ne + np) s.mix hg.mixN
+  exact ⟨ρ, hρ, toC_inj (ne + np) _ _ hn n3 (by rw [e, e3])⟩
+
 end MixDM
 end Graphiq
